@@ -189,6 +189,42 @@ def run(ctx):
             if not st and a < ret < b and pvlen == 0:
                 nviol += 1
                 ctx.violation("root search returned inside its window with an empty pv: %s" % ln, {"session": lines, "cmd": ln}, key="c05:emptypv:" + ln)
+    # ---- the UCI level with its state: sequences of related position / moves / ucinewgame commands on the engine binary (same root with
+    #      longer / shorter / equal move lists, an earlier position line again after ucinewgame, take-backs over castling, FENs that differ
+    #      in trailing digits), then `go`: exactly one bestmove, legal in the position the commands DESCRIBE; every pv playable there ----
+    import uciglue
+    exe = engine_binary("plain")
+    pool = posgen.valid_positions(model, rng, 150 if q else 2000, extra=posgen.CLASSIC)
+    ugames = [g for g in posgen.playouts(model, rng, [posgen.START] * (40 if q else 400) + pool[: (60 if q else 800)], 10) if len(g[1]) >= 4]
+    usess = uciglue.gen_sessions(rng, ugames, 60 if q else 1200)
+    uexp = uciglue.expected_fens(model, run_lines, usess, shards=NPROC)
+    usess2, uexp2 = [], []
+    for s_, e_ in zip(usess, uexp):
+        if e_ and e_[-1]:
+            usess2.append(s_)
+            uexp2.append(e_[-1])
+    rcu, ul, eu = run_lines(model, ["legal " + e for e in uexp2], shards=NPROC)
+    keep = [(s_, e, (l or "0").split()[1:]) for s_, e, l in zip(usess2, uexp2, ul) if (l or "0").split()[0] != "0"]
+    ugot = uciglue.run_sessions(exe, [k[0] for k in keep], final_go=rng.choice(["go depth 2", "go depth 3", "go movetime 20", "go nodes 2000"]), timeout=60)
+    nuci = 0
+    for (s_, e, lm), gt in zip(keep, ugot):
+        nuci += 1
+        b = gt[-1].get("bestmove") if gt else None
+        bad = None
+        if b not in lm:
+            bad = "bestmove %s is not legal in the position the commands describe (%s)" % (b, e)
+        else:
+            for pv in gt[-1].get("pvs", []):
+                if pv and pv[0] not in lm:
+                    bad = "a pv starts with %s, which is not legal in the position the commands describe (%s)" % (pv[0], e)
+                    break
+        if bad:
+            nviol += 1
+            if nviol <= 8:
+                ctx.violation("UCI session [%s ; go]: %s" % (" ; ".join(c[:120] for c, _ in s_), bad),
+                              {"session": [c for c, _ in s_] + ["go depth 2"], "expected_position": e, "legal": lm, "answer": b}, key="c05:sess:" + " ; ".join(c for c, _ in s_)[:300])
+    ngo += nuci
+    ctx.notes["uci_sessions_with_final_go"] = nuci
     ctx.cov["evaluations"] = ngo
     ctx.cov["distinct_nontrivial"] = len(set(dl for dl in drive_cases))
     ctx.cov["traces_validated_against_impl"] = nconf
